@@ -165,6 +165,7 @@ class FormulaMaterializer(metaclass=FormulaMaterializerMeta):
 
         self.factor_cache: dict[str, EvaluatedFactor] = {}
         self.encoded_cache: dict[Union[str, tuple[str, bool]], Any] = {}
+        self.encoder_state_cache: dict[str, Any] = {}
 
     def _init(self) -> None:
         pass  # pragma: no cover
@@ -190,6 +191,7 @@ class FormulaMaterializer(metaclass=FormulaMaterializerMeta):
         # within a single call.
         self.factor_cache = {}
         self.encoded_cache = {}
+        self.encoder_state_cache = {}
 
         # Prepare ModelSpec(s)
         spec: Union[ModelSpec, ModelSpecs] = ModelSpec.from_spec(
@@ -697,6 +699,12 @@ class FormulaMaterializer(metaclass=FormulaMaterializerMeta):
         reduced_rank: bool = False,
     ) -> dict[str, Any]:
         if not factor.metadata.encoded:
+            if factor.expr in self.encoder_state_cache:
+                # Every spec using the factor records how it was encoded, also
+                # when the encoded columns themselves come from the cache.
+                spec.encoder_state.setdefault(
+                    factor.expr, self.encoder_state_cache[factor.expr]
+                )
             if factor.expr in self.encoded_cache:
                 encoded = self.encoded_cache[factor.expr]
             elif (factor.expr, reduced_rank) in self.encoded_cache:
@@ -801,6 +809,7 @@ class FormulaMaterializer(metaclass=FormulaMaterializerMeta):
                     else (factor.expr, reduced_rank)
                 )
                 self.encoded_cache[cache_key] = encoded
+                self.encoder_state_cache[factor.expr] = spec.encoder_state[factor.expr]
         else:
             encoded = as_columns(
                 factor.values
